@@ -75,6 +75,41 @@ Example C16_example_call :
   shape_wf (SCall [RRow 0; RTy] [ASeq 3] 2) = false.
 Proof. repeat split; reflexivity. Qed.
 
+(* ONE operation object used for several nodes (a module-level `UNPACK = ops.UnpackTuple()`, the same op in two
+   commands of one `extend`, an op constructed with types that the wiring overrides): model reuse_count threads
+   the mutable object through the uses as dfg.py does (_set_in_types by _wire_up, then op.num_out).  For every
+   initial state of the object and every list of uses that fit its kind (guard use_wf), the handle of use j
+   carries the number of value outputs of the operation as wired in use j (spec use_outputs, which does not see
+   the object's history): the count AFTER the wiring; hence iteration / integer indexing on it are Python's *)
+Theorem C16_reused_op_handle_knows_count : forall o uses j ws,
+  Forall (fun ws => use_wf (kind_of o) ws = true) uses -> nth_error uses j = Some ws ->
+  exists n, 0 <= n /\ use_outputs (kind_of o) ws = Some n /\ reuse_count o uses j = Some n.
+Proof. exact reused_op_handle_count. Qed.
+Theorem C16_reused_op_handle_iter : forall o uses j ws,
+  Forall (fun ws => use_wf (kind_of o) ws = true) uses -> nth_error uses j = Some ws ->
+  exists n, use_outputs (kind_of o) ws = Some n /\
+            iter_node (reuse_count o uses j) = Ok (map Z.of_nat (seq 0 (Z.to_nat n))).
+Proof. exact reused_op_handle_iter. Qed.
+Theorem C16_reused_op_handle_index : forall o uses j ws i,
+  Forall (fun ws => use_wf (kind_of o) ws = true) uses -> nth_error uses j = Some ws ->
+  exists n, use_outputs (kind_of o) ws = Some n /\ index_int (reuse_count o uses j) i = py_index n i.
+Proof. exact reused_op_handle_index. Qed.
+(* ... and does not depend on how the object was constructed or what it was used for before *)
+Theorem C16_reused_op_count_history_free : forall o1 o2 pre1 pre2 ws,
+  kind_of o1 = kind_of o2 ->
+  Forall (fun ws => use_wf (kind_of o1) ws = true) (pre1 ++ [ws]) ->
+  Forall (fun ws => use_wf (kind_of o2) ws = true) (pre2 ++ [ws]) ->
+  reuse_count o1 (pre1 ++ [ws]) (length pre1) = reuse_count o2 (pre2 ++ [ws]) (length pre2).
+Proof. exact reused_op_count_history_free. Qed.
+(* non-vacuity: UNPACK used for a pair then a triple; a CallIndirect constructed for 2 results wired to a function
+   value with none.  Reading the count BEFORE the wiring (obj_num_out of the incoming object) would give 2, 2 *)
+Example C16_example_reuse :
+  reuse_counts (OUnpack None) [[WTup 2]; [WTup 3]] = Ok [2; 3] /\
+  obj_num_out (OUnpack (Some 2)) = Ok 2 /\ use_outputs KUnpack [WTup 3] = Some 3 /\
+  reuse_count (OCallInd (Some 2)) [[WFn 0 0]] 0 = Some 0 /\ use_outputs KCallInd [WFn 0 0] = Some 0 /\
+  use_wf KUnpack [WTup 3] = true /\ use_wf KUnpack [WVal] = false /\ use_wf KCallInd [WFn 1 2] = false.
+Proof. repeat split; reflexivity. Qed.
+
 (* non-vacuity / sanity: a concrete slice with overflow and a negative bound *)
 Example C16_example : index_slice (Some 5) (Some (-2)) (Some 99) (Some 2) = Ok [3] /\
                       index_slice (Some 5) (Some (-6)) None None = Err IndexError.
@@ -91,3 +126,7 @@ Print Assumptions C16_builder_handle_index.
 Print Assumptions C16_inst_len_no_rows.
 Print Assumptions C16_inst_len_app.
 Print Assumptions C16_inst_len_row.
+Print Assumptions C16_reused_op_handle_knows_count.
+Print Assumptions C16_reused_op_handle_iter.
+Print Assumptions C16_reused_op_handle_index.
+Print Assumptions C16_reused_op_count_history_free.
